@@ -81,12 +81,26 @@ theorem whd2xyz_real (w h d : ℝ) :
        if h < 180 then sin (h / 2 * (π / 180)) else 1) := by
   simp [whd2xyz, pmax3_real, radians_real, k, Scalar.ofRat, Scalar.sin, Scalar.cos]
 
+theorem pmin_real (a b : ℝ) : pmin a b = min a b := by
+  unfold pmin
+  split_ifs with h
+  · exact (min_eq_right h.le).symm
+  · exact (min_eq_left (not_lt.mp h)).symm
+
+/-- `_xyz2whd` over ℝ before the clip `min(·, 1)` (the body of the function on the clipped sizes) -/
+noncomputable def xyz2whdBody (sx sy sz : ℝ) : ℝ × ℝ × ℝ :=
+  let w := 2 * (arcsin sx * (180 / π)) + sx * max (2 * (arccos (1 - 2 * sy) * (180 / π)) - 2 * (arcsin sx * (180 / π))) 0
+  let h := 2 * (arcsin sz * (180 / π)) + sz * max (2 * (arccos (1 - 2 * sy) * (180 / π)) - 2 * (arcsin sz * (180 / π))) 0
+  (w, h, max 0 (sy - (whd2xyz w h 0).2.1))
+
 theorem xyz2whd_real (sx sy sz : ℝ) :
-    xyz2whd sx sy sz =
-      (let w := 2 * (arcsin sx * (180 / π)) + sx * max (2 * (arccos (1 - 2 * sy) * (180 / π)) - 2 * (arcsin sx * (180 / π))) 0
-       let h := 2 * (arcsin sz * (180 / π)) + sz * max (2 * (arccos (1 - 2 * sy) * (180 / π)) - 2 * (arcsin sz * (180 / π))) 0
-       (w, h, max 0 (sy - (whd2xyz w h 0).2.1))) := by
-  simp [xyz2whd, pmax_real, degrees_real, k, Scalar.ofRat, Scalar.asin, Scalar.acos]
+    xyz2whd sx sy sz = xyz2whdBody (min sx 1) (min sy 1) (min sz 1) := by
+  simp [xyz2whd, xyz2whdBody, pmax_real, pmin_real, degrees_real, k, Scalar.ofRat, Scalar.asin, Scalar.acos]
+
+/-- the clip is the identity on sizes that are at most 1 -/
+theorem xyz2whd_real_of_le (sx sy sz : ℝ) (hx : sx ≤ 1) (hy : sy ≤ 1) (hz : sz ≤ 1) :
+    xyz2whd sx sy sz = xyz2whdBody sx sy sz := by
+  rw [xyz2whd_real, min_eq_left hx, min_eq_left hy, min_eq_left hz]
 
 /-- `sin` of half an extent angle below 180 degrees lies in `[0, 1]`. -/
 theorem half_sin_mem {w : ℝ} (h0 : 0 ≤ w) (_h1 : w ≤ 360) :
@@ -148,14 +162,12 @@ theorem acos_deg_range (t : ℝ) : 0 ≤ 2 * (arccos t * (180 / π)) ∧ 2 * (ar
     have e : π * (180 / π) = 180 := by field_simp
     linarith
 
-/-- **`_xyz2whd` range**: Cartesian sizes in `[0, 1]` give width and height in `[0, 360]` and depth in `[0, 1]`
-(the ADM ranges of polar extents). -/
-theorem xyz2whd_range (sx sy sz : ℝ) (hx0 : 0 ≤ sx) (hx1 : sx ≤ 1) (_hy0 : 0 ≤ sy) (hy1 : sy ≤ 1) (hz0 : 0 ≤ sz)
+theorem xyz2whdBody_range (sx sy sz : ℝ) (hx0 : 0 ≤ sx) (hx1 : sx ≤ 1) (hy1 : sy ≤ 1) (hz0 : 0 ≤ sz)
     (hz1 : sz ≤ 1) :
-    (0 ≤ (xyz2whd sx sy sz).1 ∧ (xyz2whd sx sy sz).1 ≤ 360) ∧
-    (0 ≤ (xyz2whd sx sy sz).2.1 ∧ (xyz2whd sx sy sz).2.1 ≤ 360) ∧
-    (0 ≤ (xyz2whd sx sy sz).2.2 ∧ (xyz2whd sx sy sz).2.2 ≤ 1) := by
-  rw [xyz2whd_real]
+    (0 ≤ (xyz2whdBody sx sy sz).1 ∧ (xyz2whdBody sx sy sz).1 ≤ 360) ∧
+    (0 ≤ (xyz2whdBody sx sy sz).2.1 ∧ (xyz2whdBody sx sy sz).2.1 ≤ 360) ∧
+    (0 ≤ (xyz2whdBody sx sy sz).2.2 ∧ (xyz2whdBody sx sy sz).2.2 ≤ 1) := by
+  unfold xyz2whdBody
   simp only
   refine ⟨blend_range (asin_deg_range hx0).1 (asin_deg_range hx0).2 (acos_deg_range _).1 (acos_deg_range _).2 hx0 hx1,
     blend_range (asin_deg_range hz0).1 (asin_deg_range hz0).2 (acos_deg_range _).1 (acos_deg_range _).2 hz0 hz1,
@@ -166,13 +178,37 @@ theorem xyz2whd_range (sx sy sz : ℝ) (hx0 : 0 ≤ sx) (hx1 : sx ≤ 1) (_hy0 :
     0 le_rfl
   exact max_le (by norm_num) (by linarith)
 
+/-- **`_xyz2whd` range, with the clip** (code since bc4a3f0): ANY non-negative sizes - also sizes above 1, which the
+clip `min(·, 1)` brings back - give width and height in `[0, 360]` and depth in `[0, 1]`.  Over ℝ; the binary64
+evaluation is tied by the correspondence and searched. -/
+theorem xyz2whd_range_clipped (sx sy sz : ℝ) (hx0 : 0 ≤ sx) (hz0 : 0 ≤ sz) :
+    (0 ≤ (xyz2whd sx sy sz).1 ∧ (xyz2whd sx sy sz).1 ≤ 360) ∧
+    (0 ≤ (xyz2whd sx sy sz).2.1 ∧ (xyz2whd sx sy sz).2.1 ≤ 360) ∧
+    (0 ≤ (xyz2whd sx sy sz).2.2 ∧ (xyz2whd sx sy sz).2.2 ≤ 1) := by
+  rw [xyz2whd_real]
+  exact xyz2whdBody_range _ _ _ (le_min hx0 zero_le_one) (min_le_right _ _) (min_le_right _ _)
+    (le_min hz0 zero_le_one) (min_le_right _ _)
+
+/-- **`_xyz2whd` range**: Cartesian sizes in `[0, 1]` give width and height in `[0, 360]` and depth in `[0, 1]`
+(the ADM ranges of polar extents). -/
+theorem xyz2whd_range (sx sy sz : ℝ) (hx0 : 0 ≤ sx) (_hx1 : sx ≤ 1) (_hy0 : 0 ≤ sy) (_hy1 : sy ≤ 1) (hz0 : 0 ≤ sz)
+    (_hz1 : sz ≤ 1) :
+    (0 ≤ (xyz2whd sx sy sz).1 ∧ (xyz2whd sx sy sz).1 ≤ 360) ∧
+    (0 ≤ (xyz2whd sx sy sz).2.1 ∧ (xyz2whd sx sy sz).2.1 ≤ 360) ∧
+    (0 ≤ (xyz2whd sx sy sz).2.2 ∧ (xyz2whd sx sy sz).2.2 ≤ 1) :=
+  xyz2whd_range_clipped sx sy sz hx0 hz0
+
+example : (0 ≤ (xyz2whd (3 / 2 : ℝ) 2 1).1 ∧ (xyz2whd (3 / 2 : ℝ) 2 1).1 ≤ 360) :=
+  (xyz2whd_range_clipped (3 / 2) 2 1 (by norm_num) (by norm_num)).1
+
 /-- **zero extent, polar → Cartesian sizes** -/
 theorem whd2xyz_zero : whd2xyz (0 : ℝ) 0 0 = (0, 0, 0) := by
   rw [whd2xyz_real]; norm_num
 
 /-- **zero extent, Cartesian sizes → polar** -/
 theorem xyz2whd_zero : xyz2whd (0 : ℝ) 0 0 = (0, 0, 0) := by
-  rw [xyz2whd_real]
+  rw [xyz2whd_real_of_le _ _ _ zero_le_one zero_le_one zero_le_one]
+  unfold xyz2whdBody
   simp only [arcsin_zero, zero_mul, mul_zero, sub_zero, arccos_one, add_zero, max_self]
   rw [whd2xyz_zero]; simp
 
